@@ -127,3 +127,10 @@ class FakeGattClient:
     async def read_gatt_char(self, handle) -> bytearray:
         self.read_count += 1
         return bytearray(self.endpoints[handle].on_read())
+
+    # (used by drive_pairing_state_machine: the pairing characteristic is the single endpoint of this client)
+    async def get_characteristic(self, service_uuid, characteristic_uuid, iid=None):
+        return next(iter(self.endpoints))
+
+    async def get_characteristic_iid(self, char):
+        return getattr(char, "iid", 11)
